@@ -283,7 +283,7 @@ def _run(rec, rng, sim, R, srv, asyncm, path, V, case):
             if len(noops) < noop_expected:
                 V('upgrade-not-answered-noop', '%d UPGRADE packets, client '
                   'read %d NOOP' % (noop_expected, len(noops)))
-    if rec.evaluations % 251 == 0:
+    if rec.evaluations % 251 == 1:
         rec.sample({'server': srv, 'background': asyncm, 'path': path,
                     'body': case['_body'], 'events': [
                         (e['ev'], repr(e.get('data', e.get('reason')))[:30])
